@@ -1,6 +1,7 @@
 import BluetoeModel.Util.Proto
 import BluetoeModel.NotifQueue.Model
 import BluetoeModel.NotifQueue.Irq
+import BluetoeModel.NotifQueue.Fine
 open BluetoeModel.Util BluetoeModel.NotifQueue
 
 def configs : List (List Nat) := [[1], [2], [5], [1, 1], [1, 3], [3, 1], [4, 4, 1], [1, 2]]
@@ -39,6 +40,22 @@ def irqOutcomes (q : Queue) (prod : Kind × Nat) (atomic : Bool) : String :=
   let outs := (List.range (n + 1)).foldl (fun acc k => insertSorted (outcomeStr (irqRun q prod k atomic).1) acc) []
   " ".intercalate outs
 
+def fineOutcomeStr : Option FOutcome → String
+  | none => "oob"
+  | some o =>
+    let rest := drain o.q (2 * totalLevels o.q.levels + 1)
+    let r := if rest.isEmpty then "-" else ",".intercalate (rest.map fun x => entryStr (some x))
+    s!"p{if o.pres then "1" else "0"}:{entryStr o.deq}:{r}"
+
+/-- all distinct outcomes of one dequeue and one producer call over ALL schedules `k1 ≤ k2` at
+    access granularity with atomic read-modify-writes (Fine.lean); `diag`: only `k1 = k2` -/
+def fineOutcomes (q : Queue) (prod : Kind × Nat) (diag : Bool) : String :=
+  let n := fineAccesses q
+  let outs := (List.range (n + 1)).foldl (fun acc k2 =>
+    (List.range (k2 + 1)).foldl (fun acc k1 =>
+      if diag && k1 != k2 then acc else insertSorted (fineOutcomeStr (fineRun q prod k1 k2)) acc) acc) []
+  " ".intercalate outs
+
 def drvStep (q : Queue) (ws : List String) : Queue × String :=
   match ws with
   | ["reset", n] =>
@@ -64,6 +81,14 @@ def drvStep (q : Queue) (ws : List String) : Queue × String :=
   | ["irqatomic", p, i] =>
     match i.toNat?, (if p == "qn" then some Kind.notification else if p == "qi" then some Kind.indication else none) with
     | some i, some k => (q, irqOutcomes q (k, i) true)
+    | _, _ => (q, "bad-op")
+  | ["irqfine", p, i] =>
+    match i.toNat?, (if p == "qn" then some Kind.notification else if p == "qi" then some Kind.indication else none) with
+    | some i, some k => (q, fineOutcomes q (k, i) false)
+    | _, _ => (q, "bad-op")
+  | ["irqfinediag", p, i] =>
+    match i.toNat?, (if p == "qn" then some Kind.notification else if p == "qi" then some Kind.indication else none) with
+    | some i, some k => (q, fineOutcomes q (k, i) true)
     | _, _ => (q, "bad-op")
   | ["confpdu", h] => match parseHex h with
     | some (b :: bs) => let (q', r) := handleValueConfirmation q (b :: bs); (q', toHex r)
